@@ -68,6 +68,8 @@ def deviations(ctx):
         j["expect_violation"] = True
         jobs.append((j, inv))
     jobs.append((dict(module="Sandbox", cfg=(scfg % '{"ZeroMeansUnset"}').replace("ExecOnlyUnderFilter", "PolicyAsWritten ExecOnlyUnderFilter"), name="dev_sandbox_zero", expect_violation=True), "PolicyAsWritten"))
+    jobs.append((dict(module="TableGenMC", cfg='CONSTANTS\n  Dev = {"X64Filter"}\n  OutFile = "unused"\nSPECIFICATION Spec\nINVARIANTS BuildersIdealInv GeneratedUnambiguousInv\nCHECK_DEADLOCK FALSE\n',
+                      name="dev_tablegen_x64", expect_violation=True, workers=1), ("BuildersIdealInv", "GeneratedUnambiguousInv")))
     import c18
     jobs.append((dict(module="ProfileGen", cfg=(c18.GEN_CFG % (1, ctx.path("selftest_profile.json"))).replace("Dev = {}", 'Dev = {"NoTruncate"}'), name="dev_profile_notruncate",
                       expect_violation=True, workers=1), "ASSUME"))
